@@ -171,6 +171,25 @@ def run_case(case: Dict[str, Any], ctx) -> None:
             res.append({"outs": [o.detach() for o in outs], "grads": grads, "qf": nf, "qb": nb, "log": list(log.records[n0:]) if log else [], "ups": ups})
         return res
 
+    def backward_once(mod):
+        """one ordinary training-style step: loss.backward() accumulating into the .grad fields"""
+        ins = [t.detach().clone().requires_grad_(True) if t.is_floating_point() else t.clone() for t in inputs]
+        with pinned_randint(shape_keyed_randint):
+            out = mod(*ins)
+            outs = list(out) if isinstance(out, (tuple, list)) else [out]
+            live = [y for y in outs if y.requires_grad]
+            if live:
+                sum((y * torch.ones_like(y)).sum() for y in live).backward()
+
+    # the original has been trained on before it is transformed: its parameters carry accumulated gradients
+    grads0: Dict[str, Any] = {}
+    if case["seed"] % 2 == 0:
+        try:
+            backward_once(m)
+            grads0 = {k: p.grad.detach().clone() for k, p in m.named_parameters() if p.grad is not None}
+            ctx.count("history:original-has-accumulated-gradients")
+        except Exception:
+            grads0 = {}
     # ---- snapshot the original -------------------------------------------------------------------------
     snap = {k: v.detach().clone() for k, v in m.state_dict().items()}
     ptr0 = storage_ptrs(m)
@@ -239,6 +258,20 @@ def run_case(case: Dict[str, Any], ctx) -> None:
         if any(not bits_equal(a, b) for a, b in zip(again["outs"], base["outs"])) or any(
                 (a is None) != (b is None) or (a is not None and not bits_equal(a, b)) for a, b in zip(again["grads"], base["grads"])):
             ctx.violation(f"{key}:original-outputs-or-gradients-changed", f"chain {chain}", source=src)
+        # ---- .grad fields: a training-style backward of the RESULT must not touch the original's accumulated gradients ---------
+        if grads0:
+            try:
+                backward_once(result)
+                gp0 = {p.grad.untyped_storage().data_ptr() for p in m.parameters() if p.grad is not None}
+                gp1 = {p.grad.untyped_storage().data_ptr() for p in result.parameters() if p.grad is not None}
+                ctx.count("alias:grad-fields-compared")
+                changed = [k for k, p in m.named_parameters() if k in grads0 and (p.grad is None or not bits_equal(p.grad, grads0[k]))]
+                if changed or (gp0 & gp1):
+                    ctx.violation(f"{key}:original-accumulated-gradients-touched-by-the-result",
+                                  f"chain {chain}: after loss.backward() on the result, .grad of {changed[:3]} of the ORIGINAL changed; shared .grad storages: {len(gp0 & gp1)}",
+                                  source=src)
+            except Exception as e:
+                ctx.violation(f"{key}:transformed-module-raises:backward:{'>'.join(chain)}:{exc_key(e)}", repr(e), source=src)
         # ---- intermediates that were used before being transformed again are untouched as well ------
         for mod_i, before_i, prefix in mids:
             again_i = run(mod_i, 1)[0]
